@@ -114,7 +114,7 @@ def handleO (ws : List String) : Option String :=
   | ["beh", cfg, k] => do
     guard (cfgs.contains cfg)
     let sp ← Spec.assoc k Spec.behaviours
-    pure (reply (orAbsent (Spec.assoc k Model.behaviours)) sp (Model.devBeh k))
+    pure (reply (orAbsent (Spec.assoc k Model.behaviours)) sp "-")
   | ["static", cfg, "order"] => do guard (cfgs.contains cfg); pure (reply "consistent" "consistent" "-")
   | ["static", cfg, "eval"] => do guard (cfgs.contains cfg); pure (reply "ok" "ok" "-")
   | ["same", a, b] => do guard (cfgs.contains a ∧ cfgs.contains b); pure (reply "equal" "equal" "-")
